@@ -772,8 +772,8 @@ static void space_scopes(int lenRec, int lenRecRef, int lenUp) {
             for (int refFirst = 0; refFirst < (ref ? 2 : 1); refFirst++) {
                 Def d; d.kind = kind; d.sel = sel; d.fields = {f}; d.scope = SC_REC; d.keyType = d.refType = t; d.vset = VSET_SMALL; d.refFirst = refFirst;
                 d.maxLen = ref ? lenRecRef : lenRec;
-                if (sel == S_DESC_R) d.positions = {P_CHILD, P_IN_A};
-                if (sel == S_DESC_R) d.vset = VSET_TINY;
+                if (sel == S_DESC_R) { d.positions = {P_CHILD, P_IN_A}; d.vset = VSET_TINY; }
+                if (sel == S_DESC_R && ref) d.positions = {P_IN_A};
                 add_def(d);
                 if (ref) {
                     Def u = d; u.scope = SC_UP; u.maxLen = lenUp; u.vset = VSET_TINY;
@@ -785,12 +785,14 @@ static void space_scopes(int lenRec, int lenRecRef, int lenUp) {
     }
 }
 
-// S3: growth. representative lists + n unrelated distinct tuples
-static void space_growth(const std::vector<int>& ns, int len, int flatMaxN) {
+// S3: growth. every list <= len over the small alphabet + n unrelated distinct tuples placed before / after / around it
+//   (RefHashTableOf in ValueStore starts with 107 buckets and grows at load factor 0.75: 81 is the first size that rehashes)
+static void space_growth(const std::vector<int>& ns, int len, bool all500) {
     for (int kind = 0; kind < NKIND; kind++) for (TypeId t : ALLTYPES) {
         if (t == T_BOOLEAN) continue;   // the value space has two members: no 50 distinct fillers
         for (int f : {F_ATK, F_K}) for (int n : ns) for (int place = 0; place < 3; place++) for (int scope : {SC_ROOT, SC_FLAT}) {
-            if (scope == SC_FLAT && n > flatMaxN) continue;
+            if (scope == SC_FLAT && n != 50) continue;
+            if (n >= 500 && !all500 && (place != 2 || f != F_ATK)) continue;
             Def d; d.kind = kind; d.sel = S_R; d.fields = {f}; d.scope = scope; d.keyType = d.refType = t; d.vset = VSET_SMALL; d.maxLen = len;
             d.fillerN = n; d.fillerPlace = place;
             add_def(d);
@@ -855,21 +857,21 @@ int main(int argc, char** argv) {
     if (space == "values" || space == "root") {
         Lens L;
         bool root = space == "root";
-        L.core = N("core", root ? 2 : 3, root ? 3 : 4); L.ext = N("ext", root ? 1 : 2, root ? 2 : 3); L.nil = N("nil", root ? 2 : 3, root ? 3 : 4); L.small = N("small", 0, 0);
+        L.core = N("core", root ? 2 : 3, root ? 3 : 4); L.ext = N("ext", root ? 1 : 2, root ? 1 : 3); L.nil = N("nil", root ? 2 : 3, root ? 3 : 4); L.small = N("small", 0, 0);
         L.refCore = N("refcore", root ? 0 : 2, root ? 2 : 3); L.refExt = N("refext", root ? 0 : 2, root ? 1 : 2); L.refNil = N("refnil", root ? 0 : 2, root ? 2 : 3);
-        L.refSmall = N("refsmall", root ? 2 : 3, root ? 3 : 4);
+        L.refSmall = N("refsmall", root ? 2 : 3, root ? 2 : 4);
         L.twoCarriers = N("twocarriers", 2, 3);
-        if (root) space_values(SC_ROOT, L, {F_ATK, F_K, F_DOT});
+        if (root) space_values(SC_ROOT, L, T ? std::vector<int>{F_ATK, F_K, F_DOT} : std::vector<int>{F_ATK, F_K});
         else space_values(SC_FLAT, L, {F_ATK, F_K, F_DOT, F_ATPK, F_KORATK});
         bounds = "\"list_len\":" + lens_json(L);
     } else if (space == "paths") {
-        int l1 = N("len1", 2, 3), l1r = N("len1ref", 2, 2), l2 = N("len2", 1, 2), l2r = N("len2ref", 1, 2), pl = N("pairlen", 2, 3), plr = N("pairreflen", 2, 2);
+        int l1 = N("len1", 2, 3), l1r = N("len1ref", 2, 2), l2 = N("len2", 1, 2), l2r = N("len2ref", 1, 1), pl = N("pairlen", 2, 3), plr = N("pairreflen", 2, 2);
         space_paths(SC_FLAT, l1, l1r, l2, l2r, true);
         space_pairs(SC_FLAT, pl, plr);
         bounds = "\"list_len\":{\"one_field\":" + std::to_string(l1) + ",\"one_field_ref\":" + std::to_string(l1r) + ",\"two_fields\":" + std::to_string(l2) + ",\"two_fields_ref\":" + std::to_string(l2r) +
                  ",\"typed_pairs\":" + std::to_string(pl) + ",\"typed_pairs_ref\":" + std::to_string(plr) + "}";
     } else if (space == "rootpaths") {
-        int l1 = N("len1", 1, 2), l1r = N("len1ref", 1, 2);
+        int l1 = N("len1", 1, 2), l1r = N("len1ref", 1, 1);
         space_paths(SC_ROOT, l1, l1r, 0, 0, false);
         bounds = "\"list_len\":{\"one_field\":" + std::to_string(l1) + ",\"one_field_ref\":" + std::to_string(l1r) + "}";
     } else if (space == "scopes") {
@@ -878,10 +880,10 @@ int main(int argc, char** argv) {
         bounds = "\"list_len\":{\"recursive\":" + std::to_string(lr) + ",\"recursive_ref\":" + std::to_string(lrr) + ",\"up\":" + std::to_string(lu) + "}";
     } else if (space == "growth") {
         std::vector<int> ns;
-        std::string s = a.str("n", "1,50,500");
+        std::string s = a.str("n", T ? "1,50,81,500" : "1,50,500");
         for (size_t i = 0; i < s.size();) { size_t j = s.find(',', i); if (j == std::string::npos) j = s.size(); ns.push_back(atoi(s.substr(i, j - i).c_str())); i = j + 1; }
-        int l = N("len", 1, 2);
-        space_growth(ns, l, N("flatmaxn", 50, 500));
+        int l = N("len", 1, 1);
+        space_growth(ns, l, T);
         bounds = "\"list_len\":" + std::to_string(l) + ",\"fillers\":" + jstr(s);
     } else { fprintf(stderr, "unknown space %s\n", space.c_str()); return 2; }
     if (a.has("def")) { Def d = DEFS[a.num("def")]; DEFS = {d}; }
